@@ -65,34 +65,15 @@ func Int128FromFloat64(f float64) Int128 {
 	case f == 0 || f != f: // 0 or NaN
 		return Int128{}
 	case f < 0:
-		switch {
-		case f >= -float64(math.MaxUint64)-1:
-			return Int128{
-				hi: math.MaxUint64,
-				lo: uint64(f),
-			}
-		case f >= minInt128Float:
-			f = -f
-			lo := math.Mod(f, wrapUint64Float)
-			return Int128{
-				hi: ^uint64(f / wrapUint64Float),
-				lo: ^uint64(lo),
-			}
-		default:
+		if f <= minInt128Float {
 			return MinInt128
 		}
+		return Int128(Uint128FromFloat64(-f)).Neg()
 	default:
-		switch {
-		case f <= float64(math.MaxUint64):
-			return Int128{lo: uint64(f)}
-		case f <= maxInt128Float:
-			return Int128{
-				hi: uint64(f / wrapUint64Float),
-				lo: uint64(math.Mod(f, wrapUint64Float)),
-			}
-		default:
+		if f >= maxInt128Float {
 			return MaxInt128
 		}
+		return Int128(Uint128FromFloat64(f))
 	}
 }
 
